@@ -134,13 +134,16 @@ info('C08',
       'obligations of C10/C12; infinite and segment states are not compared'],
      [])
 info('C09',
+     'P: MPS.permute_sites, real source, every L and every permutation: with the swap as abstract leaf (ghost array content[k] = original '
+     'index of the site now at k; swap_sites exchanges two neighbours and is called in range) the site that was at i ends at perm[i], '
+     'the argument is not modified, the returned truncation error is the sum over the swaps performed (termination of the sort is not '
+     'proved); index normalisation and the form-exponent algebra of get_B/get_theta/convert_form (shared with C07). '
      'B (bounded, not proof): apply_local_op/apply_product_op (incl. fermionic operators with JW strings, norm tracked), swap_sites, '
-     'permute_sites (dense permutation with fermionic signs, convention pinned by tests/test_mps.py: old site i moves to perm[i]), '
+     'permute_sites (dense permutation with fermionic signs: old site i moves to perm[i] - the docstring said the inverse, F-45, corrected), '
      'add, group_sites+group_split, enlarge_chi, compress_svd (infidelity <= 2*reported eps), spatial_inversion (reversal, involution) '
      'on random finite MPS of all site families against the dense state; infinite MPS in forms A/B/C: roll/enlarge unit cell and '
      'spatial inversion leave observables unchanged up to relabelling.',
-     ['permute_sites swap-sequence invariant and the form bookkeeping as deductive obligations: see contracts/c_mps.py (partly built)',
-      'compression numerics'],
+     ['swap_sites itself (two-site SVD with fermionic swap gate), compression numerics: bounded only'],
      [])
 info('C10',
      'P: order_combine_term, real source, any number of factors: the nested loops sort the factors by site and '
